@@ -606,7 +606,19 @@ func (p *provider) getDependencies(ctx context.Context, v resolve.VersionKey, ex
 		if err != nil {
 			return false, err
 		}
-		return m.Eval(extras), nil
+		// Like pip, evaluate the marker once without any extra and once
+		// per requested extra, not against the whole set at once: with
+		// the extras a and b requested, extra == "a" and extra == "b"
+		// holds for neither.
+		if m.Eval(nil) {
+			return true, nil
+		}
+		for e, on := range extras {
+			if on && m.Eval(map[string]bool{e: true}) {
+				return true, nil
+			}
+		}
+		return false, nil
 	})
 }
 
